@@ -142,8 +142,7 @@ impl JsonValue {
 
                     for (i, (key, val)) in sorted_entries.iter().enumerate() {
                         let key_offset = data_buf.len();
-                        data_buf.extend((key.len() as u16).to_le_bytes());
-                        data_buf.extend(key.as_bytes());
+                        crate::records::jsonb::write_str_prefixed(&mut data_buf, key);
 
                         let key_entry =
                             FLAG_IS_KEY | FLAG_IS_VARIABLE | (key_offset as u32 & OFFSET_MASK);
@@ -176,8 +175,7 @@ impl JsonValue {
                 }
                 JsonValue::String(s) => {
                     let offset = data_buf.len();
-                    data_buf.extend((s.len() as u16).to_le_bytes());
-                    data_buf.extend(s.as_bytes());
+                    crate::records::jsonb::write_str_prefixed(data_buf, s);
                     FLAG_IS_VARIABLE
                         | ((JSONB_TYPE_STRING as u32) << TYPE_SHIFT)
                         | (offset as u32 & OFFSET_MASK)
